@@ -166,8 +166,9 @@ CLAIMED = {
         "fragment size and dropped transfers (update_yields_B, from validateChecksums_sound, copyChunks_sound, loop_sound, "
         "finish_sound, equal_or_collision): a run that ends without error and with every chunk marked valid leaves a target of "
         "the prescribed length, with the parsed header in front and every chunk present - which IS the server's file B byte for "
-        "byte, or two different byte strings with the same chunk checksum are exhibited.  Requests are zck_get_missing_range of "
-        "the current marks (C10: exactly extents of chunks marked missing) and valid chunks are never modified.  NOT proved: "
+        "byte, or two different byte strings with the same chunk checksum are exhibited.  NOTHING PRESENT IS FETCHED AGAIN "
+        "(request_only_missing, present_not_requested): every round's request contains only chunks marked missing, a chunk the "
+        "scan found present keeps its valid mark through copy, reset and every round, and valid chunks are never modified.  NOT proved: "
         "completeness - that the run does end that way with an honest server (termination, exact request set); the single-range "
         "callback path is complete (C05 complete_single) but the multipart path and the loop's progress are decided on explored "
         "inputs only: the procedure is run in-process with the real library against a reference server with every request "
@@ -189,7 +190,8 @@ CLAIMED = {
         "extent hash to its checksum (no partially written chunk is trusted), chunks the restart finds valid are never modified by "
         "later transfers, the scan trusts a chunk exactly when all its stored bytes are there and hash to the checksum; and C04's "
         "update_yields_B holds from any crash state: a restart that ends without error and with every chunk valid has produced B "
-        "(or a collision).  NOT proved (as C04): that the restart does end that way.  Decided on explored inputs: the real library is run in-process with the k-th write(2) on the "
+        "(or a collision); a chunk completely and correctly on disk at the interruption is marked valid by the restart's scan "
+        "(C09 find_valid_exact) and is in no request of the restart (C04 present_not_requested / valid_not_requested).  NOT proved (as C04): that the restart does end that way.  Decided on explored inputs: the real library is run in-process with the k-th write(2) on the "
         "target cut short (none/half/all bytes) and the run abandoned, for EVERY k of small scenarios and for chains of 2-5 "
         "interruptions; the restart is judged from the target as the interruption left it: converges to B, its scan trusts only "
         "verified-present chunks, its requests are exactly the chunks not present and not available from A.",
